@@ -51,10 +51,13 @@ Theorem C12_no_shared_entry : forall cfg torc sorc s o h2,
 Proof. exact no_shared_entry. Qed.
 Print Assumptions C12_no_shared_entry.
 
-(* Each review is sent to a ready endpoint of the request's own cluster ... *)
+(* Each review is sent to a ready endpoint of the request's own cluster: an endpoint that is in the
+   cluster's CURRENT server list (after all additions / removals / re-homings so far), healthy and
+   not disabled ... *)
 Theorem C12_own_cluster : forall cfg torc sorc s o cl,
   In cl (out_calls (snd (step cfg torc sorc s o))) ->
-  exists h, op_host o = Some h /\ cluster_of cfg h = Some (fst cl) /\ ready s (fst cl) = true /\ snd cl = true.
+  exists h, op_host o = Some h /\ cluster_of cfg h = Some (fst cl) /\ snd cl = true /\
+    exists srv st, In (srv, st) (e_list (eps s) (fst cl)) /\ ep_ready st = true.
 Proof. exact own_cluster. Qed.
 Print Assumptions C12_own_cluster.
 
@@ -90,7 +93,7 @@ Print Assumptions C12_history.
 
 (* ---------- non-vacuity ---------- *)
 Definition ex_cfg : config :=
-  {| reg := [("a", "a"); ("b", "b"); ("alias-a", "a")]; neps := [("a", 2%nat); ("b", 1%nat)];
+  {| reg := [("a", "a"); ("b", "b"); ("alias-a", "a")]; servers := [("a", ["a0"; "a1"]); ("b", ["b0"])];
      sttl := 100; fttl := 10; attl := 100; dttl := 10; tretries := 3%nat; sretries := 4%nat |}.
 Definition ex_torc := script_orc (TFail 0 false)
   [("a", [TAuth "alice@a" "1"; TFail 7 true; TAuth "alice@a" "1"]); ("b", [TUnauth; TAuth "mallory@b" "9"])].
@@ -105,13 +108,13 @@ Definition ex_attrs : attrs :=
    by asking a again, with one retried failure), a cluster without ready endpoint is refused, a
    replaced cluster is asked again *)
 Example C12_history_nonvacuous :
-  let ops := [OHealthy "a" 1 true; OHealthy "b" 0 true;
+  let ops := [OHealthy "a1" true; OHealthy "b0" true;
               OAuthn (Some "a") "tok" 0; OAuthn (Some "b") "tok" 1; OAuthn (Some "A") "tok" 2;
               OAuthn (Some "a") "tok" 3; OAuthn (Some "b") "tok" 11;
               OAuthz (Some "a") ex_attrs 4; OAuthz (Some "b") ex_attrs 5; OAuthz (Some "b") ex_attrs 15;
               OAuthz (Some "b") ex_attrs 16; OAuthz (Some "a") ex_attrs 104; OAuthz (Some "a") ex_attrs 105;
-              ODisabled "b" 0 true; OAuthz (Some "b") ex_attrs 17; OAuthn (Some "nowhere") "tok" 18; OAuthn None "tok" 19;
-              ORestart "a"; OAuthn (Some "a") "tok" 20; OHealthy "a" 0 true; OAuthn (Some "a") "tok" 21] in
+              ODisabled "b0" true; OAuthz (Some "b") ex_attrs 17; OAuthn (Some "nowhere") "tok" 18; OAuthn None "tok" 19;
+              ORestart "a"; OAuthn (Some "a") "tok" 20; OHealthy "a0" true; OAuthn (Some "a") "tok" 21] in
   map snd (run ex_cfg ex_torc ex_sorc (init ex_cfg) ops) =
   [OutNone; OutNone;
    OutT {| t_user := Some ("alice@a", "1"); t_ok := true; t_err := ENone |} [("a", true)];
@@ -138,7 +141,7 @@ Proof. vm_compute. reflexivity. Qed.
 (* the hypothesis of C12_unavailable_denies is satisfiable in a state where ANOTHER cluster has a
    valid cached answer for the same token *)
 Example C12_unavailable_denies_nonvacuous :
-  let s := run_state ex_cfg ex_torc ex_sorc (init ex_cfg) [OHealthy "a" 0 true; OAuthn (Some "a") "tok" 0] in
+  let s := run_state ex_cfg ex_torc ex_sorc (init ex_cfg) [OHealthy "a0" true; OAuthn (Some "a") "tok" 0] in
   can_ask ex_cfg (eps s) (Some "b") = None /\
   (exists v, kc (ts s) "a" ["tok"] = Some v) /\
   snd (step ex_cfg ex_torc ex_sorc s (OAuthn (Some "b") "tok" 1))
@@ -156,18 +159,18 @@ Proof. split; [|split]; vm_compute; [discriminate|discriminate|reflexivity]. Qed
    wrong cluster fails clause 1 *)
 Example C12_spec_rejects_leak :
   spec_ok ex_cfg ex_torc ex_sorc
-    [(One (OHealthy "a" 0 true), R1 OutNone); (One (OHealthy "b" 0 true), R1 OutNone);
+    [(One (OHealthy "a0" true), R1 OutNone); (One (OHealthy "b0" true), R1 OutNone);
      (One (OAuthn (Some "a") "tok" 0), R1 (OutT {| t_user := Some ("alice@a", "1"); t_ok := true; t_err := ENone |} [("a", true)]));
      (One (OAuthn (Some "b") "tok" 1), R1 (OutT {| t_user := Some ("alice@a", "1"); t_ok := true; t_err := ENone |} []))]
   = (true, true, true, false)
   /\
   spec_ok ex_cfg ex_torc ex_sorc
-    [(One (OHealthy "a" 0 true), R1 OutNone); (One (OHealthy "b" 0 true), R1 OutNone);
+    [(One (OHealthy "a0" true), R1 OutNone); (One (OHealthy "b0" true), R1 OutNone);
      (One (OAuthn (Some "b") "tok" 0), R1 (OutT {| t_user := Some ("alice@a", "1"); t_ok := true; t_err := ENone |} [("a", true)]))]
   = (false, true, true, true)
   /\
   spec_ok ex_cfg ex_torc ex_sorc
-    [(One (OHealthy "a" 0 true), R1 OutNone);
+    [(One (OHealthy "a0" true), R1 OutNone);
      (One (OAuthz (Some "b") ex_attrs 0), R1 (OutS {| s_dec := DAllow; s_reason := "ok@a"; s_err := ENone |} [("a", true)]))]
   = (false, false, true, true).
 Proof. vm_compute. repeat split. Qed.
@@ -176,7 +179,7 @@ Proof. vm_compute. repeat split. Qed.
    flight — b's caller gets b's own answer; the history in which it gets a's (no review sent to b) and
    the later sequential request to b served from that poisoned entry are both rejected by clause 4 *)
 Example C12_overlap_nonvacuous :
-  let ops := [One (OHealthy "a" 0 true); One (OHealthy "b" 0 true);
+  let ops := [One (OHealthy "a0" true); One (OHealthy "b0" true);
               Ovl (OAuthz (Some "a") ex_attrs 0) (OAuthz (Some "b") ex_attrs 0);
               One (OAuthz (Some "b") ex_attrs 1)] in
   map snd (runx ex_cfg ex_torc ex_sorc (init ex_cfg) ops) =
@@ -188,10 +191,38 @@ Example C12_overlap_nonvacuous :
   (op_cluster ex_cfg (OAuthz (Some "a") ex_attrs 0) <> op_cluster ex_cfg (OAuthz (Some "b") ex_attrs 0))
   /\
   spec_ok ex_cfg ex_torc ex_sorc
-    [(One (OHealthy "a" 0 true), R1 OutNone); (One (OHealthy "b" 0 true), R1 OutNone);
+    [(One (OHealthy "a0" true), R1 OutNone); (One (OHealthy "b0" true), R1 OutNone);
      (Ovl (OAuthz (Some "a") ex_attrs 0) (OAuthz (Some "b") ex_attrs 0),
       R2 (OutS {| s_dec := DAllow; s_reason := "ok@a"; s_err := ENone |} [("a", true)])
          (OutS {| s_dec := DAllow; s_reason := "ok@a"; s_err := ENone |} []));
      (One (OAuthz (Some "b") ex_attrs 1), R1 (OutS {| s_dec := DAllow; s_reason := "ok@a"; s_err := ENone |} []))]
   = (true, true, true, false).
 Proof. vm_compute. split; [reflexivity|]. split; [discriminate|reflexivity]. Qed.
+
+(* server lists change: a0 is removed from a and re-homed to b.  Requests for a are then answered by
+   a's remaining endpoint (or refused while a has none that is ready), never through a0; the history
+   in which the review for a is received by a0 — now an endpoint of b, answering as b — is rejected by
+   clause 1 *)
+Example C12_rehoming_nonvacuous :
+  let ops := [One (OHealthy "a0" true); One (OHealthy "b0" true); One (OAuthn (Some "a") "t1" 0);
+              One (ORemoveEp "a" "a0"); One (OAddEp "b" "a0"); One (OHealthy "a0" true);
+              One (OAuthn (Some "a") "t2" 1); One (OHealthy "a1" true); One (OAuthn (Some "a") "t2" 2);
+              One (ODisabled "b0" true); One (OAuthn (Some "b") "t2" 3)] in
+  map snd (runx ex_cfg ex_torc ex_sorc (init ex_cfg) ops) =
+  [R1 OutNone; R1 OutNone; R1 (OutT {| t_user := Some ("alice@a", "1"); t_ok := true; t_err := ENone |} [("a", true)]);
+   R1 OutNone; R1 OutNone; R1 OutNone;
+   R1 (OutT {| t_user := None; t_ok := false; t_err := ENoReady |} []); R1 OutNone;
+   R1 (OutT {| t_user := Some ("alice@a", "1"); t_ok := true; t_err := ENone |} [("a", true); ("a", true)]);
+   R1 OutNone;
+   R1 (OutT {| t_user := None; t_ok := false; t_err := ENone |} [("b", true)])]
+  /\
+  e_list (eps (fst (stepx ex_cfg ex_torc ex_sorc
+                      (fst (stepx ex_cfg ex_torc ex_sorc (init ex_cfg) (One (ORemoveEp "a" "a0")))) (One (OAddEp "b" "a0"))))) "b"
+  = [("b0", (false, false)); ("a0", (false, false))]
+  /\
+  spec_ok ex_cfg ex_torc ex_sorc
+    [(One (OHealthy "a0" true), R1 OutNone); (One (OHealthy "b0" true), R1 OutNone);
+     (One (ORemoveEp "a" "a0"), R1 OutNone); (One (OAddEp "b" "a0"), R1 OutNone); (One (OHealthy "a0" true), R1 OutNone);
+     (One (OAuthn (Some "a") "t2" 1), R1 (OutT {| t_user := None; t_ok := false; t_err := ENone |} [("b", true)]))]
+  = (false, false, true, true).
+Proof. vm_compute. repeat split. Qed.
